@@ -64,7 +64,8 @@ def Obb.ray (negInf : K) (b : Obb K) (o d : V3 K) : Option K :=
     | none => none
     | some s2 => match slab oo.z dd.z b.size.z s2 with
       | none => none
-      | some s3 => some (match s3.1 with | none => negInf | some m => m)
+      | some s3 => let m := (match s3.1 with | none => negInf | some m => m)
+                   some (if 0 < m then m else 0)      -- `distance = minDist > 0 ? minDist : 0`
 
 /-! ## point – triangle (`findNearestPointToFace`), returns (point, s, t) with point = v1 + s e0 + t e1 -/
 def triNearest (v1 v2 v3 p : V3 K) : V3 K × K × K :=
